@@ -129,6 +129,35 @@ fn run(op: &Value) -> Value {
             let u = uri.to_string();
             json!({"uri": if u.len() > 300 { format!("{}...", &u[..300]) } else { u }, "segments_hex": segments, "pairs_hex": pairs, "grouped_values": n_grouped})
         }
+        "negotiate" | "request_encoding" => {
+            use conjure_http::server::{ConjureRuntime, JsonEncoding, SmileEncoding};
+            let mut b = ConjureRuntime::builder();
+            for o in op["order"].as_array().unwrap() {
+                b = match o.as_str().unwrap() {
+                    "json" => b.encoding(JsonEncoding),
+                    _ => b.encoding(SmileEncoding),
+                };
+            }
+            let rt = b.build();
+            let mut headers = http::HeaderMap::new();
+            if name == "negotiate" {
+                for a in op["accept"].as_array().unwrap() {
+                    headers.append(http::header::ACCEPT, http::HeaderValue::from_str(a.as_str().unwrap()).unwrap());
+                }
+                match rt.response_body_encoding(&headers) {
+                    Ok(e) => json!({"chosen": e.content_type().to_str().unwrap()}),
+                    Err(e) => json!({"chosen": Value::Null, "code": format!("{:?}", match e.kind() { conjure_error::ErrorKind::Service(s) => format!("{:?}", s.error_code()), _ => "other".to_string() })}),
+                }
+            } else {
+                if let Some(h) = op.get("content_type_hex").and_then(|v| v.as_str()) {
+                    headers.insert(http::header::CONTENT_TYPE, http::HeaderValue::from_bytes(&hex(h)).unwrap());
+                }
+                match rt.request_body_encoding(&headers) {
+                    Ok(e) => json!({"chosen": e.content_type().to_str().unwrap()}),
+                    Err(e) => json!({"chosen": Value::Null, "code": format!("{:?}", match e.kind() { conjure_error::ErrorKind::Service(s) => format!("{:?}", s.error_code()), _ => "other".to_string() })}),
+                }
+            }
+        }
         _ => json!({"error": format!("unknown op {}", name)}),
     }
 }
